@@ -724,8 +724,9 @@ func runC08(c *Ctx) {
 				if pk, tn := recvTypeName(fn); pk+"."+tn != modPath+".CodecConn" {
 					continue
 				}
-				switch pinName(fn) {
-				case "ReadNext":
+				// by content, not by name: the blocking read loop and the function that starts the asynchronous read (which
+				// may be a helper split off AsyncReadNext)
+				{
 					for _, rc := range callsToFn(fn, bbReadFrom) {
 						errv := extractOfInstr(rc.(ssa.Instruction), 1)
 						if errv == nil {
@@ -740,7 +741,6 @@ func runC08(c *Ctx) {
 							}
 						}
 					}
-				case "AsyncReadNext":
 					for _, rc := range callsToFn(fn, bbAsyncReadFrom) {
 						mc, ok := strip(rc.Common().Args[len(rc.Common().Args)-1]).(*ssa.MakeClosure)
 						if !ok {
